@@ -1,0 +1,27 @@
+//go:build verif
+
+package metadatapart
+
+import (
+	"github.com/jdillenkofer/pithos/internal/storage"
+	"github.com/jdillenkofer/pithos/internal/storage/metadatapart/gc"
+	"github.com/jdillenkofer/pithos/internal/storage/metadatapart/partstore"
+)
+
+// PartGCOf returns the part garbage collector of a MetadataPartStorage (nil for
+// any other storage). Verification harness only.
+func PartGCOf(s storage.Storage) gc.PartGarbageCollector {
+	if mbs, ok := s.(*metadataPartStorage); ok {
+		return mbs.partGC
+	}
+	return nil
+}
+
+// PartStoresOf returns the named part stores of a MetadataPartStorage (nil for
+// any other storage). Verification harness only.
+func PartStoresOf(s storage.Storage) *partstore.NamedPartStores {
+	if mbs, ok := s.(*metadataPartStorage); ok {
+		return mbs.partStores
+	}
+	return nil
+}
